@@ -82,11 +82,13 @@ R("compose-generic-accessor",
             setattr(self, attr, obj)
         return obj'''))
 
-# equivalent patterns precompiled at module level; \\d for [0-9]
+# equivalent patterns precompiled at module level.  (An earlier version of this entry also wrote \\d for [0-9]: that is NOT
+# behaviour-preserving - on Python 3 \\d matches every Unicode decimal digit - and C14 rightly reports it since its
+# alphabet contains such digits; see seeded C14-G.)
 R("patterns-precompiled",
   (CI, '        self._assert_matches_re("date", [r"^\\d{8}\\Z"])', '        self._assert_matches_re("date", [COMPOSE_DATE_RE])'),
-  (CI, '#: supported variant types\nVARIANT_TYPES = [\n    "variant",', 'COMPOSE_DATE_RE = re.compile(r"^[0-9]{8}\\Z")\n\n\n#: supported variant types\nVARIANT_TYPES = [\n    "variant",'),
-  (CM, 'RELEASE_VERSION_RE = re.compile(r"^([^0-9].*|([0-9]+(\\.[0-9]+)*))\\Z")', 'RELEASE_VERSION_RE = re.compile(r"^(\\D.*|(\\d+(\\.\\d+)*))\\Z")'))
+  (CI, '#: supported variant types\nVARIANT_TYPES = [\n    "variant",', 'COMPOSE_DATE_RE = re.compile(r"^\\d{8}\\Z")\n\n\n#: supported variant types\nVARIANT_TYPES = [\n    "variant",'),
+  (CM, 'RELEASE_VERSION_RE = re.compile(r"^([^0-9].*|([0-9]+(\\.[0-9]+)*))\\Z")', 'RELEASE_VERSION_RE = re.compile(r"^(?:[^0-9].*|(?:[0-9]+(?:\\.[0-9]+)*))\\Z")'))
 
 # dump() writes through a temporary file and renames it into place on success
 R("atomic-dump",
@@ -180,10 +182,12 @@ R("header-type-check-helper",
         if metadata_type != self.metadata_type:
             raise ValueError("Metadata of type %r cannot be loaded as %r" % (metadata_type, self.metadata_type))'''))
 
-# JSON written as UTF-8 (no \\u escapes) with a final newline - the statement fixes key order and indentation only
-R("json-utf8-final-newline",
+# JSON written with a final newline - the statement fixes key order and indentation only.  (An earlier version of this
+# entry also switched to ensure_ascii=False: not behaviour-preserving, the bytes - and whether dump(path) works at all -
+# then depend on the process locale; see seeded C03-G and the ASCII-locale shards of C01-C03.)
+R("json-final-newline",
   (CM, 'json.dump(parser, f, indent=4, sort_keys=True, separators = (",", ": "))',
-       'json.dump(parser, f, indent=4, sort_keys=True, separators = (",", ": "), ensure_ascii=False)\n        f.write("\\n")'))
+       'json.dump(parser, f, indent=4, sort_keys=True, separators = (",", ": "))\n        f.write("\\n")'))
 
 # compose path normalised; error text reworded but still naming the location
 R("compose-path-normalised",
